@@ -457,6 +457,41 @@ func runTimeFormulas(c *Ctx) {
 	if nParse == 0 {
 		c.Violated("TIME", "gtfs", "date parsing", "-", "the static parser no longer parses dates with time.ParseInLocation")
 	}
+	// the first agency's zone is taken whenever there is an agency: the only condition on the number of agencies under
+	// which time.LoadLocation(Agencies[0].Timezone) runs is that the list is not empty
+	for _, fn := range staticParseFns(c) {
+		for _, blk := range fn.Blocks {
+			for _, in := range blk.Instrs {
+				call, isCall := in.(*ssa.Call)
+				if !isCall || calleeName(call) != "time.LoadLocation" || !strings.Contains(b.bind(call.Call.Args[0]), ".Agencies[const:0].Timezone") {
+					continue
+				}
+				okCount, why := true, ""
+				nLen := 0
+				for _, ce := range dominatingConds(blk) {
+					if ce.Composite {
+						continue
+					}
+					cond, val := normalizeCond(ce.Cond, ce.Val)
+					bo, ok := cond.(*ssa.BinOp)
+					if !ok {
+						continue
+					}
+					lx, isLen := lenOf(bo.X)
+					if !isLen || !strings.Contains(b.bind(lx), ".Agencies") {
+						continue
+					}
+					nLen++
+					k, isK := constInt(bo.Y)
+					nonEmpty := isK && k == 0 && ((bo.Op == token.EQL && !val) || (bo.Op == token.NEQ && val) || (bo.Op == token.GTR && val) || (bo.Op == token.LEQ && !val))
+					if !nonEmpty {
+						okCount, why = false, "the zone of the first agency is taken under `"+canon(cond)+"` = "+fmt.Sprint(val)+", which is not `there is an agency`"
+					}
+				}
+				c.Check(okCount && nLen > 0, "TIME", shortName(fn), "first agency's zone taken whenever there is an agency", p.ipos(call), "LoadLocation(Agencies[0].Timezone) runs under len(Agencies) != 0 and no other condition on their number", "feeds with several agencies (or none of the tested count) get UTC instead of the first agency's zone: "+why)
+			}
+		}
+	}
 	// dates are produced by nothing else: time.Date normalises impossible dates (30 February becomes 2 March) instead of
 	// rejecting them, time.Unix is not a civil date at all
 	nOther := 0
@@ -777,13 +812,15 @@ func runFileTable(c *Ctx) {
 	fn := c.anchor("gtfs:ParseStatic")
 	if fn != nil {
 		okMap := false
-		for _, b := range fn.Blocks {
-			for _, in := range b.Instrs {
-				if mu, ok := in.(*ssa.MapUpdate); ok && strings.Contains(canon(mu.Key), ".Name") && strings.Contains(mu.Map.Type().String(), "zip.File") {
-					if ld, ok := mu.Value.(*ssa.UnOp); ok {
-						if ia, ok := ld.X.(*ssa.IndexAddr); ok {
-							if r, _ := isRangeIndexOver(ia.Index, ia.X); r {
-								okMap = true
+		for _, g := range c.regionOf(fn) { // the index may be built by a helper
+			for _, b := range g.Blocks {
+				for _, in := range b.Instrs {
+					if mu, ok := in.(*ssa.MapUpdate); ok && strings.Contains(canon(mu.Key), ".Name") && strings.Contains(mu.Map.Type().String(), "zip.File") {
+						if ld, ok := mu.Value.(*ssa.UnOp); ok {
+							if ia, ok := ld.X.(*ssa.IndexAddr); ok {
+								if r, _ := isRangeIndexOver(ia.Index, ia.X); r {
+									okMap = true
+								}
 							}
 						}
 					}
